@@ -254,10 +254,29 @@ def units_of(data):
     raise LayoutMismatch(f'{type(data).__name__} written where bytes are expected')
 
 
+class Swapped:
+    """An array element whose bytes were reversed in memory (ndarray.byteswap): written with the other byte order."""
+
+    def __init__(self, x):
+        self.x = x
+
+    def __eq__(self, o):
+        return isinstance(o, Swapped) and same_elem(o.x, self.x)
+
+    def __hash__(self):
+        return hash(('swapped',))
+
+    def __repr__(self):
+        return f'byteswapped({self.x!r})'
+
+
 def pack_value(dtype: AbsDtype, v):
     code, n = CODES[dtype.name]
     if v is UNINIT:
         raise LayoutMismatch('uninitialised array element written to the file')
+    if isinstance(v, Swapped):
+        other = AbsDtype(dtype.name, '>' if dtype.order == '<' else '<') if n > 1 else dtype
+        return pack_value(other, v.x)
     if is_concrete(v):
         try:
             if dtype.kind in 'iu':
@@ -492,6 +511,14 @@ class NdArr:
         for e in self.elems:
             out.extend(pack_value(self.dtype, e))
         return mk(out)
+
+    def byteswap(self, inplace=False):
+        sw = lambda e: e.x if isinstance(e, Swapped) else Swapped(e)  # noqa: E731
+        if inplace:
+            for i in self._idx:  # the shared store: every view of this memory sees the swapped bytes
+                self._store[i] = sw(self._store[i])
+            return self
+        return NdArr(self.shape, self.dtype, [sw(e) for e in self.elems])
 
     def tofile(self, f, *a, **k):
         if not isinstance(f, AbsFile):
